@@ -77,4 +77,11 @@ def session_config(scheme, mode, tier, known, narrow=False, **over):
              QsShapes={1, 2, 3, 4}, LcShapes={1, 2, 3, 4}, MaxOps=1, Emit=True,
              Excused=excused_for(scheme, known))
     c.update(over)
+    # thorough tier: three committed polynomials and the remaining query / combination shapes
+    if tier == "thorough" and mode in ("C01", "C02", "C03", "C05", "C06", "C10") and "MaxPolys" not in over:
+        c["MaxPolys"] = 3
+        if "batch" in c["OpKinds"]:
+            c["QsShapes"] = set(c["QsShapes"]) | {5, 6}
+        if "lc" in c["OpKinds"]:
+            c["LcShapes"] = set(c["LcShapes"]) | {5, 6}
     return c
